@@ -2,7 +2,7 @@
 failure classification, known findings, shrinking, evidence."""
 import fcntl, hashlib, json, os, re, shutil, subprocess, sys, time
 
-V = '/verif'
+V = os.path.dirname(os.path.dirname(os.path.abspath(__file__)))   # /verif, or a snapshot of it (vp run)
 WORK = os.path.join(V, '.work')
 BIN = os.path.join(WORK, 'bin')
 REPO = '/repo'
